@@ -768,6 +768,7 @@ pub fn generate(seed: u64, thorough: bool) -> Trace {
     let n = if proving { 10 + rng.usize_below(10) } else { 8 + rng.usize_below(if thorough { 50 } else { 30 }) };
     let mut steps = Vec::new();
     let mut hwm = 0usize; // rough tracking for argument choice only
+    let mut cur_cap = cap;
     let mut members: Vec<(Fr, Fr, usize)> = Vec::new();
     let mut slots = 0usize;
     let pos = |rng: &mut Prng, hwm: usize| -> usize {
@@ -861,10 +862,16 @@ pub fn generate(seed: u64, thorough: bool) -> Trace {
                         Call::SeqAtomic { leaves, indices: enc_vec_u8(&rem2) }
                     }
                 }
-                7 => { hwm = 0; Call::SetTree { depth: if rng.chance(1, 3) { 1 + rng.usize_below(6) } else { depth } } }
+                7 => {
+                    hwm = 0;
+                    let d = if rng.chance(1, 3) { 1 + rng.usize_below(6) } else { depth };
+                    cur_cap = 1usize << d;
+                    Call::SetTree { depth: d }
+                }
                 8 => Call::GetLeaf { i: pos(&mut rng, hwm) },
                 9 => Call::GetRoot,
-                10 => Call::GetProof { i: rng.usize_below(cap) },
+                // (get_proof beyond capacity panics in the Rust API: outside every listed property, and it would only end the run)
+                10 => Call::GetProof { i: rng.usize_below(cur_cap) },
                 11 => Call::LeavesSet,
                 12 => { let k = rng.usize_below(20); Call::SetMeta { bytes: rng.bytes(k) } }
                 13 => Call::GetMeta,
